@@ -9,4 +9,5 @@ import AM.Lemmas.GroupMapStep
 import AM.Lemmas.GroupMapMain
 import AM.Props.C07
 import AM.Props.C06Conc
+import AM.Props.C06Sched
 import AM.Props.C06
